@@ -4,6 +4,8 @@ Implementations of IInput
 import logging
 from datetime import datetime
 
+import numpy as np
+
 from ..data import tools
 from ..data.tools import Info
 from ..errors import FinamMetaDataError
@@ -139,7 +141,12 @@ class Input(IInput, Loggable):
         # transform compatible data between grids
         if self._transform is not None:
             with ErrorLogger(self.logger):
-                data = self._transform(data)
+                # the transformation is defined for data without time axis: apply it to every time slice
+                mag = data.magnitude
+                stack = np.ma.stack if np.ma.isMaskedArray(mag) else np.stack
+                data = tools.UNITS.Quantity(
+                    stack([self._transform(m) for m in mag]), data.units
+                )
             self.logger.profile(
                 "converted data between compatible grids (%d entries)", data.size
             )
